@@ -158,6 +158,17 @@ def d_vals(draw, n, vkind="int", nonzero=False):
     return draw(st.lists(gen.values(vkind, nonzero=nonzero), min_size=n, max_size=n))
 
 
+def d_vecs(draw, shape, vkind="int"):
+    """one vector per mode for ttv; (round 3, class 6) in a quarter of the cases unit vectors (the product is then a
+    slice of the data: what a shortcut would hand back as a view), sometimes all ones (the product is a plain sum)"""
+    special = draw(st.sampled_from([None, None, None, None, None, "unit", "unit", "ones"]))
+    if special == "unit":
+        return [[1.0 if i == k else 0.0 for i in range(s)] for s, k in ((s, draw(st.integers(0, s - 1))) for s in shape)]
+    if special == "ones":
+        return [[1.0] * s for s in shape]
+    return [d_vals(draw, s, vkind) for s in shape]
+
+
 def d_dense_like(draw, shape, vkind="int"):
     """Another dense array of the given shape: dict(shape, data)."""
     n = ref.prod(shape)
